@@ -782,15 +782,15 @@ func clientLockset(c *an.Check) {
 
 func init() {
 	register(&Def{ID: "C19", Run: c19,
-		Explain:     "Decides on SSA (closures explored with the facts of their creation site): the client stores an incoming message into its receive slot only inside the handler that (R1) saw SessionMsg.ExtractAndVerify succeed and the verified sender's string equal the session's peer key, the stored message being the verified one; verification failure is returned as an error (R2a); no other function stores a message there (WHO); the read loop's switch covers exactly the response bodies SessionResponse.Validate knows (SIBLING); NewSessionMsg / ExtractAndVerify / Validate use one context constant and forward SignedMsg.ExtractAndVerify's verdict (MIRROR). Inherits C01 for the verifier itself.",
+		Explain:     "Decides on SSA (closures explored with the facts of their creation site): the client stores an incoming message into its receive slot only inside the handler that (R1) saw SessionMsg.ExtractAndVerify succeed and the verified sender's string equal the session's peer key, the stored message being the verified one; verification failure is returned as an error (R2a); no other function stores a message there (WHO); the read loop's switch covers exactly the response bodies SessionResponse.Validate knows (SIBLING); NewSessionMsg / ExtractAndVerify / Validate use one context constant and forward SignedMsg.ExtractAndVerify's verdict (MIRROR). Inherits C01 for the verifier itself. VerifyWithPublic verifies with the caller's key; EQUIV obligations of the SignalPeer directive; signaling codec sanity; no relay handler returns with Server.mtx held.",
 		NotCov:      "recipient/epoch binding of the signed bytes (a protocol-design fact: the signature covers neither), Ed25519 soundness.",
 		Assumptions: commonAssumptions})
 	register(&Def{ID: "C20", Run: c20,
-		Explain:     "Decides on SSA: the relay stores a message for delivery only in the send handler, on paths where (R1) ExtractAndVerify succeeded, the verified sender equals the identity s.ident(ctx) of the submitting stream, the epoch check returned (true,nil) for the message's epoch, this call is still the registered peer, the partner is attached, and the slot written is the partner's with the verified message; the epoch check returns true only as (stored epoch == message epoch) and errors on future epochs; registration happens only past a well-formed init (identity ok, epoch 0, parsable non-empty destination != self); the request switch covers exactly Validate's bodies; all tracker state is touched only under Server.mtx (LOCKSET). (MUSTCALL) every critical section of the relay that changes a peer slot bumps the epoch, wakes the waiters and clears the partner's pending delivery, so a message queued in an older epoch does not survive into the next.",
+		Explain:     "Decides on SSA: the relay stores a message for delivery only in the send handler, on paths where (R1) ExtractAndVerify succeeded, the verified sender equals the identity s.ident(ctx) of the submitting stream, the epoch check returned (true,nil) for the message's epoch, this call is still the registered peer, the partner is attached, and the slot written is the partner's with the verified message; the epoch check returns true only as (stored epoch == message epoch) and errors on future epochs; registration happens only past a well-formed init (identity ok, epoch 0, parsable non-empty destination != self); the request switch covers exactly Validate's bodies; all tracker state is touched only under Server.mtx (LOCKSET). (MUSTCALL) every critical section of the relay that changes a peer slot bumps the epoch, wakes the waiters and clears the partner's pending delivery, so a message queued in an older epoch does not survive into the next. Signaling codec sanity (tags, guards); no relay handler returns with Server.mtx held.",
 		NotCov:      "end-to-end history statements; the verifier itself is C01.",
 		Assumptions: commonAssumptions})
 	register(&Def{ID: "C21", Run: c21,
-		Explain:     "Decides on SSA: every store made by the four ack/clear handlers is dominated by equality of the named seqno with the stored message's seqno (server: *recvSent==ack → partner.outAcked, recv.Seqno==clear → drop, *recvSent==clear → partner.recvClear, each also behind current-epoch / still-registered / partner-attached; client: out.Seqno==ack, recv.Seqno==clear); the client schedules an AckMsg only for a message whose recvProcessed is true, which only ClientPeerRef.Recv sets; outAcked/recvClear are set only by their handlers (WHO); server state only under Server.mtx and client tracker state only under its broadcast lock (LOCKSET). (MUSTCALL) the client's open handler discards the previous epoch's inbox and transmit flags in the critical section that records the new epoch.",
+		Explain:     "Decides on SSA: every store made by the four ack/clear handlers is dominated by equality of the named seqno with the stored message's seqno (server: *recvSent==ack → partner.outAcked, recv.Seqno==clear → drop, *recvSent==clear → partner.recvClear, each also behind current-epoch / still-registered / partner-attached; client: out.Seqno==ack, recv.Seqno==clear); the client schedules an AckMsg only for a message whose recvProcessed is true, which only ClientPeerRef.Recv sets; outAcked/recvClear are set only by their handlers (WHO); server state only under Server.mtx and client tracker state only under its broadcast lock (LOCKSET). (MUSTCALL) the client's open handler discards the previous epoch's inbox and transmit flags in the critical section that records the new epoch. Signaling codec sanity: each oneof arm is encoded under and decoded from its own schema number (a clear never travels as an ack); EQUIV of SignalPeer.",
 		NotCov:      "the end-to-end history statement (ack observed ⇒ partner received) — needs a model of both sides and the transport.",
 		Assumptions: commonAssumptions})
 }
